@@ -122,6 +122,7 @@ class Zygote(object):
 
     def send(self, job):
         self.job = job
+        job['_t0'] = time.time()
         self.deadline = time.time() + job.get('_wall_cap', self.pool.wall_cap)
         spec = dict((k, v) for k, v in job.items() if not k.startswith('_'))
         data = wire.dumps(spec).encode('utf-8') + b'\n'
@@ -244,6 +245,7 @@ class Pool(object):
 
     def _complete(self, z, res):
         job, z.job = z.job, None
+        job['_dt'] = time.time() - job.get('_t0', time.time())
         z.jobs_done += 1
         self.jobs_completed += 1
         if isinstance(res, dict) and 'harness_error' in res:
